@@ -58,6 +58,11 @@ THEOREMS = [
     (M, "C12.mozpath_basedir", "basedir returns one of the bases, which is a path-prefix of the path (or the path itself); None only if no base contains the path; among several the deepest"),
     (M, "C12.mozpath_commonprefix", "commonprefix (through min and max) is the longest common prefix: a prefix of every path, and every common prefix is a prefix of it"),
     (M, "C12.mozpath_parts", "dirname/basename/splitext lose nothing: head + basename = path, basename has no '/', dirname is a prefix, root + ext = path, ext is '' or '.' + text without '.' and '/'"),
+    (M, "C12.expand_leaves_env_untouched", "nested expansion never touches the dict it is given: for every pattern, raise_missing, heap and address, pattern.expand answers what the stateless model answers for the dict's CONTENTS (a text or an exception, MissingEnvironment from any depth included) and the heap afterwards is the heap before plus new dicts"),
+    (M, "C12.regex_leaves_env_untouched", "the same for regex_pattern / _cache_regex"),
+    (M, "C12.no_cycle_copies", "_no_cycle(env) returns a dict holding env without the name and leaves env itself alone"),
+    (M, "C12.readonly_ops_preserve_state", "prefix, str(), pattern.expand(env, raise_missing=True), repr(), == on matcher objects answer the stateless function of the views (value OR exception) and leave the store as it was: same objects (pattern, root, env address, cache), same dicts at all existing addresses"),
+    (M, "C12.readonly_trigger_example", "the history of the round-5 regression on the model: '{l}browser/**' with l = '{l10n_base}/{locale}/', locale unbound: prefix, str ('' both), expand(raise_missing) (MissingEnvironment), then with_env({locale: de}): the derived matcher matches its own file with l = '/l10n/de/', not the fr file, prefix '/l10n/de/browser/', the source still has both variables"),
 ]
 PARTIAL = [
     "matches_own_expansion_partial excludes repeated variables; matches_own_expansion_backref_partial lifts that for patterns without {android_locale} "
@@ -659,6 +664,7 @@ def run(ctx):
     run_moz(ctx, out, ctx.rng("c12", "moz"))
     run_mozhelpers(ctx, out, ctx.rng("c12", "mp"))
     E.run_round4(ctx, out, ctx.rng("c12", "r4"))
+    E.run_history(ctx, out, ctx.n(900, 9000), ctx.rng("c12", "history"))
     return out
 
 
@@ -672,6 +678,8 @@ def replay(payload):
             res.append(E.replay_sequence(i))
         elif v.get("op") == "derive":
             res.append(E.replay_derive(i))
+        elif v.get("op") == "history":
+            res.append(E.replay_history(i))
         elif v.get("op") == "spec":
             r = pool.pmap("impl.matcher", "impl_matcher", [[{k: i[k] for k in ("pat", "env", "root", "with", "paths")}]], timeout=10.0)[0]
             bad = generic_laws(i, r["r"]) if "r" in r else [("crash", None)]
